@@ -26,7 +26,8 @@ BUILDS = ['str+=', 'str+', 'gstr+=', 'sprintf', 'repeat', 'replace', 'implode', 
 def gen(rng, tier, i):
     p = Plan()
     # a master without error_handler() matters: the handler apply at full call depth would itself hit the limit and mark the error
-    p.file('mcfg.h', mcfg({'NO_ERROR_HANDLER': 1} if rng.random() < 0.3 else {}))
+    r0 = rng.random()
+    p.file('mcfg.h', mcfg({'NO_ERROR_HANDLER': 1} if r0 < 0.3 else ({'EH_CATCH': 1} if r0 < 0.55 else {})))
     p.cfg('Port', '4000:telnet')
     lim = {'MaxEvaluationCost': rng.choice((3000, 6000, 20000, 40000)), 'MaxCallDepth': rng.choice((16, 17, 20, 25, 30, 31, 60)),
            'StackSize': rng.choice((150, 300, 1000)), 'MaxArraySize': rng.choice((64, 500, 15000, 70000)),
